@@ -21,7 +21,13 @@ RULE = ('cases = rule graphs over <= 6 names, bodies from the expression generat
         'and/or/not at any depth, self-loops, long cycles, diamonds, undefined names; targeted shapes: reference only '
         'under not, cycle only through not, diamond without cycle. a rule carrying the name of the default rule in 30 % of the graphs. G = check_rules() and check_rules(raise_on_violation) '
         'on in-memory rule sets; H = file-backed enforcer validated, further defaults registered late, loaded and validated again; W = oslopolicy-validator (_validate_policy, mocked _get_enforcer, global CONF) on policy '
-        'files incl. missing file, unregistered name, unparseable rule. Non-trivial = the graph has at least one reference; '
+        'files incl. missing file, unregistered name, unparseable rule. L = the validator on a LIVING enforcer: the enforcer '
+        'handed to the tool has already read the policy file (load_rules / an enforce call / an earlier validator run; file '
+        'valid, invalid or absent), then the file is deleted or replaced (clean, undefined / cyclic reference, unregistered '
+        'name, unparseable rule; one or two such changes, mtimes advancing) and the validator runs again with that same '
+        'enforcer: its verdict must be the one for the CURRENT file (fails = non-zero status or, for a deleted file, dying of '
+        'an OSError); histories whose first contact found the file absent are generated but not judged (the unchanged '
+        'validator keeps answering "not found"). Non-trivial = the graph has at least one reference; '
         'distinct = distinct rule set.')
 ASSUMPTIONS = ['"evaluating any rule terminates" is restated as bounded progress: completes under recursion limit 400 '
                'for graphs of <= 6 rules (a watchdog firing would be inconclusive, not a violation)',
@@ -32,11 +38,13 @@ LEVEL_TEXT = ('Seeded sampling of reference graphs with targeted shapes, compare
 LEVEL_NOTE = 'trusted: the independent graph analysis (own DFS over all rule: occurrences, including those under not)'
 PLAN = {'quick': dict(shards=4, wall=60), 'thorough': dict(shards=16, wall=400)}
 MIN = {'evaluations': 500, 'graphs_clean': 100, 'graphs_undefined': 50, 'graphs_cyclic': 50, 'validator_runs': 50,
-       'clean_rule_evaluations': 1000, 'graphs_reference_under_not': 50, 'late_registration_verdicts': 200}
+       'clean_rule_evaluations': 1000, 'graphs_reference_under_not': 50, 'late_registration_verdicts': 200,
+       'living_verdicts_judged': 100, 'living_file_deleted': 20, 'living_bad_to_clean': 10, 'living_clean_to_bad': 8}
 ANCHORS = ['oslo_policy.policy:Enforcer.check_rules', 'oslo_policy.policy:Enforcer._undefined_check',
            'oslo_policy.policy:Enforcer._cycle_check', 'oslo_policy.generator:_validate_policy']
 REQUIRED_ANCHORS = ['oslo_policy.policy:Enforcer.check_rules']
 N = {'quick': (10000, 600), 'thorough': (300000, 10000)}
+N_LIVING = {'quick': 400, 'thorough': 6000}
 ROLES = ['a', 'b']
 SUBSETS = [[], ['a'], ['b'], ['a', 'b']]
 
@@ -338,6 +346,190 @@ def check_validator(ctx, case):
                                   'output': out.getvalue()[:300]})
 
 
+# ---------------------------------------------------------------------------
+# validator on a LIVING enforcer: the enforcer handed to the tool has read an earlier version of the policy file
+UNPARSEABLE = ('unparseable', 'unparseable-nontext')
+
+
+def expect_version(defaults, ver):
+    """(file content or None, expected exit status, effective fault, reference under not?) for one version of the policy
+    file - the expectation of check_validator spelled out on the effective rule set: what the file says, plus the
+    registered default for every registered name the file does not mention."""
+    if ver.get('absent'):
+        return None, 1, 'missing-file', False
+    asts = {k: fromjson(v) for k, v in ver['file'].items()}
+    content = {k: text_of(v) for k, v in asts.items()}
+    eff = dict(defaults)
+    eff.update(asts)
+    fault = ver.get('fault', 'none')
+    extra = False
+    if fault == 'unregistered':
+        content[ver['extra_name']] = 'role:a'
+        extra = True
+    elif fault in UNPARSEABLE and not content:
+        fault = 'none'
+    elif fault in UNPARSEABLE:
+        victim = sorted(content)[0]
+        content[victim] = ver['garbage']
+        eff[victim] = ('text', '!')             # what an unparseable rule becomes
+        extra = True
+    undefined, cyclic, under_not = analyse(eff)
+    return content, (1 if (undefined or cyclic or extra) else 0), fault, under_not
+
+
+def _run_validator(enf):
+    """What oslopolicy-validator does with this enforcer: (exit status | 'EXC:<type>', died of an OSError?, output)."""
+    from oslo_policy import generator
+    from unittest import mock
+    import stevedore
+    out = io.StringIO()
+    oserror = False
+    ext = stevedore.extension.Extension(name='pv', entry_point=None, plugin=None, obj=enf)
+    mgr = stevedore.named.NamedExtensionManager.make_test_instance([ext], namespace='pv')
+    try:
+        with mock.patch('stevedore.named.NamedExtensionManager', return_value=mgr):
+            with contextlib.redirect_stdout(out):
+                try:
+                    got = generator._validate_policy('pv')
+                except AttributeError:
+                    got = 'EXC:validator-entry-moved'
+                except Exception as e:
+                    got = 'EXC:' + type(e).__name__
+                    oserror = isinstance(e, OSError)
+    finally:
+        logging.disable(logging.CRITICAL)       # the validator re-enables logging
+    return got, oserror, out.getvalue()
+
+
+def check_validator_living(ctx, case):
+    """The verdict of the validator must be the one for the CURRENT policy file, also when the enforcer it is given has
+    loaded an earlier version of that file (valid, invalid or absent) and the file has been deleted / replaced since.
+    fails = non-zero return value, or - for a file that is not there - dying of an OSError (traceback, exit status 1)."""
+    from oslo_config import cfg
+    from oslo_policy import opts, policy
+    defaults = {k: fromjson(v) for k, v in case['defaults'].items()}
+    versions = case['versions']
+    name = 'policy.yaml'
+    tree = files.Tree(dirs=(), main=name)
+    conf = cfg.CONF
+    history = []
+    try:
+        conf([], default_config_files=[], default_config_dirs=[])
+        opts._register(conf)
+        conf.set_override('policy_file', tree.main, group='oslo_policy')
+        conf.set_override('policy_dirs', [], group='oslo_policy')
+        enf = policy.Enforcer(conf)
+        enf.register_defaults([policy.RuleDefault(n, text_of(a)) for n, a in sorted(defaults.items())])
+        prev_want = None
+        for step, ver in enumerate(versions):
+            content, want, fault, under_not = expect_version(defaults, ver)
+            if content is None:
+                tree.delete(name)
+            else:
+                tree.write(name, content, ver.get('fmt', 'yaml'))
+            history.append('absent' if content is None else content)
+            first = case['first'] if step == 0 else 'validate'
+            if first == 'enforce' and want == 0:
+                # the service decides something (that loads the file); only on rule sets that are clean
+                try:
+                    enf.enforce(sorted(defaults)[0], {}, {'roles': ['a']})
+                except Exception:
+                    pass                                # evaluation is judged in stratum G, not here
+                prev_want = want
+                continue
+            if first in ('load_rules', 'enforce'):
+                try:
+                    enf.load_rules()
+                except Exception as e:
+                    ctx.violation('living-load_rules-raises', case, {'history': history, 'observed': type(e).__name__})
+                    return
+                prev_want = want
+                continue
+            got, oserror, output = _run_validator(enf)
+            kind = ('first-contact' if step == 0 else 'file-deleted' if content is None else
+                    'file-created' if prev_want is None or history[-2] == 'absent' else
+                    'bad-to-clean' if (prev_want, want) == (1, 0) else 'clean-to-bad' if (prev_want, want) == (0, 1) else
+                    'bad-to-bad' if want else 'clean-to-clean')
+            prev_want = want
+            ctx.observe('living_validator_outcomes', '%s/%s->%s' % (kind, fault, got))
+            if step:
+                ctx.count('validator_living_runs')
+                ctx.count('living_' + kind.replace('-', '_'))
+            if step and versions[0].get('absent') and 'absent-at-first-contact' in STALE_ON_UNCHANGED_TREE:
+                ctx.unconstrained('living-validator-file-absent-at-first-contact')
+                continue
+            if step:
+                ctx.count('living_verdicts_judged')
+            if fault == 'missing-file' and oserror:
+                got = 1                                # a traceback out of the console script: exit status 1
+            if got != want:
+                if isinstance(got, str):
+                    key = 'validator-raises'
+                elif want == 1 and fault == 'unparseable' and str(ver.get('garbage', '')).lower() in ('and', 'or', 'not', '(', ')'):
+                    key = 'lone-noncheck-token'
+                elif want == 1 and fault != 'none':
+                    key = 'validator-misses-' + fault
+                elif want == 1:
+                    key = 'reference-under-not' if under_not else 'validator-misses-bad-reference'
+                else:
+                    key = 'validator-rejects-clean-file'
+                if step:
+                    key = 'living-enforcer-' + key
+                ctx.violation(key, case, {'history': history, 'step': step, 'change': kind, 'fault': fault, 'exit_status': got,
+                                          'expected': want, 'output': output[:300]})
+                return
+        ctx.case(['living', case['first'], history], nontrivial=True, stratum='L')
+    finally:
+        logging.disable(logging.CRITICAL)
+        conf.clear_override('policy_file', group='oslo_policy')
+        conf.clear_override('policy_dirs', group='oslo_policy')
+        tree.cleanup()
+
+
+# histories in which the UNCHANGED validator itself answers for an earlier state of the file: generated and counted,
+# not judged.  absent-at-first-contact: an enforcer that did not find the file at its first load keeps saying
+# 'Configured policy file ... not found' (exit status 1) whatever is put there afterwards.
+STALE_ON_UNCHANGED_TREE = ('absent-at-first-contact',)
+
+
+def gen_living(rnd):
+    g1 = gen_graph(rnd)
+    names1 = sorted(g1['rules'])
+    only_registered = rnd.sample(names1, rnd.randint(1, len(names1) - 1)) if (rnd.random() < 0.5 and len(names1) > 1) else []
+    graphs = [g1] + [gen_graph(rnd) for _ in range(rnd.choice([1, 1, 2]))]
+    defaults = {}
+    for g in graphs:
+        for n in g['rules']:
+            defaults.setdefault(n, ('text', 'role:a'))
+    for n in only_registered:
+        defaults[n] = g1['rules'][n]
+    versions = []
+    for i, g in enumerate(graphs):
+        r = rnd.random()
+        if (i == 0 and r < 0.1) or (i > 0 and r < 0.3 and not versions[-1].get('absent')):
+            versions.append({'absent': True})
+            continue
+        if i > 0 and r > 0.85 and not versions[-1].get('absent'):
+            # the same rules again, with or without a fault: only the fault comes or goes
+            body = dict(versions[-1]['file'])
+        else:
+            names = sorted(g['rules'])
+            drop = set(only_registered if i == 0 else
+                       (rnd.sample(names, rnd.randint(1, len(names) - 1)) if (rnd.random() < 0.4 and len(names) > 1) else []))
+            body = {n: g['rules'][n] for n in names if n not in drop}
+        ver = {'file': body, 'fmt': rnd.choice(['yaml', 'json']),
+               'fault': rnd.choice(['none'] * 5 + ['unregistered', 'unregistered', 'unparseable', 'unparseable-nontext'])}
+        if ver['fault'] == 'unregistered':
+            ver['extra_name'] = rnd.choice(['zz:unknown', 'n9', 'svc:no_such_rule'])
+        if ver['fault'] == 'unparseable-nontext':
+            ver['garbage'] = rnd.choice([['bar'], [['bar']], 12, True, {'role': 'admin'}, 1.5])
+        if ver['fault'] == 'unparseable':
+            ver['garbage'] = rnd.choice(['(role:a))', 'role:a and', 'and', 'role:a role:b', '((role:a)', 'not', 'role:a or or role:b'])
+        versions.append(ver)
+    return dict(validator_living=True, defaults=defaults, versions=versions,
+                first=rnd.choice(['load_rules', 'load_rules', 'enforce', 'validate']))
+
+
 def run(ctx):
     ng, nw = N[ctx.tier]
     for i in range(ng // ctx.nshards + 1):
@@ -369,11 +561,21 @@ def run(ctx):
         check_validator(ctx, case)
         if i % 60 == 0:
             ctx.sample({'file': {k: text_of(fromjson(v)) for k, v in case['rules'].items()}, 'fault': case['fault']}, 'W')
+    for i in range(N_LIVING[ctx.tier] // ctx.nshards + 1):
+        if (i & 0xf) == 0 and ctx.expired():
+            break
+        case = gen_living(ctx.rnd)
+        check_validator_living(ctx, case)
+        if i % 40 == 0:
+            ctx.sample({'first': case['first'], 'versions': [expect_version(case['defaults'], v)[0] or 'absent'
+                                                              for v in case['versions']]}, 'L')
     ctx.stratum('random', exhaustive=False)
 
 
 def replay(ctx, case):
-    if case.get('late_registration'):
+    if case.get('validator_living'):
+        check_validator_living(ctx, case)
+    elif case.get('late_registration'):
         check_late_registration(ctx, case)
     elif case.get('validator'):
         check_validator(ctx, case)
